@@ -971,6 +971,7 @@ class SimResult(object):
         self.steps = sim.steps
         self.step_at_event = sim.step_at_event
         self.fired = sim.fired
+        self.fault = sim.fault
         self.created = set(sim.created)
         self.touched = set(sim.touched)
         self.root = sim.root
